@@ -388,6 +388,7 @@ class Engine(StmtMixin):
     def verify_function(self, fi: FuncInfo, c: Contract) -> list[Obligation]:
         smt.reset_names()
         self.cur_fn_key = c.key
+        self.cur_contract = c
         n0 = len(self.obligations)
         st = State()
         ghost = st.alloc(ObjMeta("ghost", None, "ghost"), {})
